@@ -128,7 +128,7 @@ def lex_opcode_size(s: "Scanner") -> None:
 
         return lex_operand(s)
     else:
-        s.next()
+        # the offending character is not consumed: it may be the end of the line.
         raise ScannerException("Invalid Size Specifier", s.get_position())
 
 
